@@ -1154,3 +1154,135 @@ theorem mapM_opt_congr {α β : Type} (f g : α → Option β) :
     intro h
     rw [List.mapM_cons, List.mapM_cons, h a (by simp), ih (fun a' ha' => h a' (by simp [ha']))]
 end QM.C08
+
+/-! ## the generated `cqpt_to_cqmpt` (numpy statements on lists of rows) is the hand model -/
+namespace QM.C08
+variable {K : Type}
+
+theorem zipWith_replicate_right {α β γ : Type} (f : α → β → γ) (l : List α) (x : β) :
+    List.zipWith f l (List.replicate l.length x) = l.map fun a => f a x := by
+  induction l with
+  | nil => rfl
+  | cons a l ih => simp [List.replicate_succ, ih]
+
+theorem zipWith_map_map {α β γ δ : Type} (f : β → γ → δ) (g : α → β) (h : α → γ) (l : List α) :
+    List.zipWith f (l.map g) (l.map h) = l.map fun a => f (g a) (h a) := by
+  induction l with
+  | nil => rfl
+  | cons a l ih => simp [ih]
+
+theorem matWidth_of_rows [Zero K] (w : Nat) (C : List (List K)) (h : ∀ c ∈ C, c.length = w) (hne : C ≠ []) :
+    matWidth C = w := by
+  cases C with
+  | nil => exact absurd rfl hne
+  | cons c cs => simpa [matWidth] using h c (by simp)
+
+theorem gen_cqpt_false [Field K] (dim m : Nat) (cq : List (List K)) (w : Nat)
+    (hw : ∀ c ∈ cq, c.length = w) (hwn : w = dim ^ 2 * dim ^ 2) :
+    (QGen.C08.cqpt_to_cqmpt false dim m cq).map (fun ab => ab.1.zip ab.2) = cqptToCqmpt false (dim ^ 2) m cq := by
+  by_cases hne : cq = []
+  · subst hne
+    simp [QGen.C08.cqpt_to_cqmpt, cqptToCqmpt, blockDiagRep, zeros]
+  · have hmw := matWidth_of_rows w cq hw hne
+    simp only [QGen.C08.cqpt_to_cqmpt, cqptToCqmpt, Bool.false_eq_true, if_false, Option.map_some]
+    congr 1
+    unfold zeros
+    rw [List.zip_eq_zipWith, zipWith_replicate_right]
+    simp only [blockDiagRep, blockRow, hmw, hwn, List.map_flatMap, List.map_map, zeros]
+    rfl
+
+end QM.C08
+
+namespace QM.C08
+variable {K : Type}
+
+theorem zipWith_map_replicate {α β γ δ : Type} (f : β → γ → δ) (g : α → β) (l : List α) (x : γ) :
+    List.zipWith f (l.map g) (List.replicate l.length x) = l.map fun a => f (g a) x := by
+  induction l with
+  | nil => rfl
+  | cons a l ih => simp [List.replicate_succ, ih]
+
+theorem blockDiagRep_length [Zero K] (k : Nat) (C : List (List K)) : (blockDiagRep k C).length = k * C.length := by
+  unfold blockDiagRep
+  generalize matWidth C = w
+  have : ∀ (f : Nat → List K → List K) (k : Nat),
+      ((List.range k).flatMap fun i => C.map (f i)).length = k * C.length := by
+    intro f k
+    induction k with
+    | zero => simp
+    | succ k ih => rw [List.range_succ, List.flatMap_append, List.length_append, ih]; simp [Nat.succ_mul]
+  exact this (fun i c => zeros (i * w) ++ c ++ zeros ((k - 1 - i) * w)) k
+
+theorem lastRow_mapM [Field K] (n m : Nat) (cq : List (List K)) :
+    (cq.mapM (fun c => c[0]?)).map (fun b1 =>
+        (cq.map fun c => tile (m - 1) (lneg (c.take n) ++ zeros (n * n - n)) ++ c.drop n).zip b1) =
+      cq.mapM (qmptLastRow n m) := by
+  induction cq with
+  | nil => simp
+  | cons c cs ih =>
+    rw [List.mapM_cons, List.mapM_cons]
+    cases c with
+    | nil => simp [qmptLastRow]
+    | cons c0 rest =>
+      simp only [List.getElem?_cons_zero, Option.bind_eq_bind, Option.bind_some, qmptLastRow]
+      rw [← ih]
+      cases cs.mapM (fun c => c[0]?) <;> simp
+
+theorem gen_cqpt_true [Field K] (dim m : Nat) (cq : List (List K)) (hd : 0 < dim)
+    (hw : ∀ c ∈ cq, c.length = dim ^ 2 * dim ^ 2) :
+    (QGen.C08.cqpt_to_cqmpt true dim m cq).map (fun ab => ab.1.zip ab.2) = cqptToCqmpt true (dim ^ 2) m cq := by
+  set n := dim ^ 2 with hn
+  have hn1 : 0 < n := pow_pos hd 2
+  have hnw : n ≤ n * n := Nat.le_mul_of_pos_left n hn1
+  by_cases hne : cq = []
+  · subst hne
+    simp [QGen.C08.cqpt_to_cqmpt, cqptToCqmpt, blockDiagRep, zeros, colAt?, colsTo, hstack2, hstackRep, negMat,
+      colsFrom, zerosMat]
+  · have hmw := matWidth_of_rows (n * n) cq hw hne
+    have hme : matWidth (colsFrom n cq) = n * n - n := by
+      apply matWidth_of_rows
+      · intro c hc
+        obtain ⟨c', hc', rfl⟩ := List.mem_map.1 hc
+        simp [hw c' hc']
+      · simpa [colsFrom] using hne
+    have hmd : matWidth (colsTo n cq) = n := by
+      apply matWidth_of_rows
+      · intro c hc
+        obtain ⟨c', hc', rfl⟩ := List.mem_map.1 hc
+        simp [hw c' hc', hnw]
+      · simpa [colsTo] using hne
+    have hb1 : colAt? 0 (colsTo n cq) = cq.mapM (fun c => c[0]?) := by
+      unfold colAt? colsTo
+      rw [mapM_map_opt]
+      congr 1
+      funext c
+      rw [List.getElem?_take]; simp [hn1]
+    simp only [QGen.C08.cqpt_to_cqmpt, if_true, cqptToCqmpt, Nat.add_sub_cancel]
+    simp only [← hn, hme, hmd, hmw, hb1]
+    rw [← lastRow_mapM n m cq]
+    cases hq : cq.mapM (fun c => c[0]?) with
+    | none => simp
+    | some b1 =>
+      simp only [Option.map_some, Option.bind_eq_bind, Option.bind_some, Option.pure_def, Option.some.injEq]
+      have hA0 : hstack2 (blockDiagRep (m - 1) cq) (zerosMat (blockDiagRep (m - 1) cq).length (n * n - n)) =
+          (blockDiagRep (m - 1) cq).map fun row => row ++ zeros (n * n - n) := by
+        unfold hstack2 zerosMat; exact zipWith_replicate_right _ _ _
+      have hD : hstack2 (negMat (colsTo n cq)) (zerosMat (colsTo n cq).length (n * n - n)) =
+          cq.map fun c => lneg (c.take n) ++ zeros (n * n - n) := by
+        unfold hstack2 zerosMat negMat colsTo
+        rw [List.map_map, List.length_map]
+        exact zipWith_map_replicate _ _ _ _
+      have hA1 : hstackRep (m - 1) (cq.map fun c => lneg (c.take n) ++ zeros (n * n - n)) (colsFrom n cq) =
+          cq.map fun c => tile (m - 1) (lneg (c.take n) ++ zeros (n * n - n)) ++ c.drop n := by
+        unfold hstackRep colsFrom; exact zipWith_map_map _ _ _ _
+      rw [hA0, hD, hA1]
+      rw [List.zip_append (by simp [blockDiagRep_length, colsTo, Nat.mul_comm])]
+      congr 1
+      have hlen : (colsTo n cq).length * (m - 1) = ((blockDiagRep (m - 1) cq).map fun row => row ++ zeros (n * n - n)).length := by
+        simp [blockDiagRep_length, colsTo, Nat.mul_comm]
+      unfold zeros at *
+      rw [hlen, List.zip_eq_zipWith, zipWith_replicate_right]
+      simp only [blockDiagRep, blockRow, hmw, List.map_flatMap, List.map_map, zeros]
+      rfl
+
+end QM.C08
